@@ -413,6 +413,10 @@ def plan_C06(w):
     if not r.get("complete"):
         raise Infra("MC_hg1_live did not complete: %s" % r.get("raw_tail"))
     log("  mc hg1live   FairSpec (weak fairness of the node's own steps, strong fairness of delivery): C06_EventuallyIdle, C06_AllCommitted hold for N=1 (for N >= 2 the event bound of an exhaustive model cuts progress short: liveness is decided on traces)")
+    rs = w.model_check("selector", "MC_selector.cfg", module="PeerSelector.tla", workers=2, timeout=300)
+    if not rs.get("complete"):
+        raise Infra("PeerSelector.tla did not complete: %s" % rs.get("raw_tail"))
+    log("  mc selector  PeerSelector.tla (the source of the fair-gossip assumption): distinct=%s, NeverSelf / OnlyCurrentPeers / NotTwiceInARow hold" % rs.get("distinct"))
     kinds = [("liveA", dict(traces=14, n=0, steps=110, full=0)), ("liveB", dict(traces=6, n=4, steps=160, full=0))] if q else \
             [("live%d" % i, dict(traces=21, n=0, steps=220, full=0)) for i in range(4)] + \
             [("liveN7", dict(traces=6, n=7, steps=300, full=0)), ("liveBd", dict(traces=6, n=4, steps=200, full=0, store="badger", cache=400))]
